@@ -76,7 +76,7 @@ for pid, (tech, text, note, ref) in sorted(CHECKS.items()):
         "quick_cmd": f"./check {pid} quick",
         "thorough_cmd": f"./check {pid} thorough",
         "evidence_file": f"/verif/evidence/{pid}.json",
-        "replay_cmd_template": "./.bin/mc replay {path}",
+        "replay_cmd_template": "./check replay {path}",
         "engine": "mc",
         "level_claimed": {"category": "model_checking", "text": text, "design_ref": ref},
         "level_note": note,
